@@ -100,8 +100,15 @@ def gen_cases(tier, seed):
             if len(tmpl) <= (100 if quick else 400):
                 break
             nobs = max(5, nobs - 3)
-        kind = rng.choice(["noise", "smooth"])
-        xi = [rng.randint(-10000, 10000) for _ in range(nobs)] if kind == "noise" else [int(4000 + 3000 * np.sin(i * 0.5)) for i in range(nobs)]
+        kind = rng.choice(["noise", "smooth", "zeros", "small"])
+        if kind == "noise":
+            xi = [rng.randint(-10000, 10000) for _ in range(nobs)]
+        elif kind == "smooth":
+            xi = [int(4000 + 3000 * np.sin(i * 0.5)) for i in range(nobs)]
+        elif kind == "zeros":     # exact zeros among the observations (a natural value for rainfall / indices)
+            xi = [0 if rng.random() < 0.35 else rng.randint(-500, 500) for _ in range(nobs)]
+        else:
+            xi = [rng.choice([-1, 0, 1, 2, 255, -32768, 32767][:5]) for _ in range(nobs)]
         api = rng.choice(["kernel", "kernel", "accessor"])
         add({"op": "general", "api": api, "xi": xi, "tmpl": tmpl, "labels": labels, "dims": rng.choice([["time", "y", "x"], ["y", "x", "time"]]), "dask": rng.random() < 0.15})
     # constant and linear-in-day data, long templates
